@@ -60,7 +60,7 @@ def handle : List String → String
     match nats [th, tw, fh, fw, np, attr], (if ops == "-" then some [] else (ops.splitOn ";").mapM parseOp) with
     | some [th, tw, fh, fw, np, attr], some ops =>
       let e := mkEnv th tw fh fw
-      let (d, sigs) := runOps e (initDisp np attr) ops
+      let (d, sigs) := runOps e (initDisp np attr 0) ops
       let all := modeSignal e :: sigs
       let cv := consume Canvas.empty all
       let cv2 := consume Canvas.empty (rebuild e d)
